@@ -81,7 +81,8 @@ def run(ctx):
                 # directive lines continued over a line break with blanks after the backslash; a region; a namespace at the end
                 txt += rng.choice(["#pragma region tail \\  \n    more\n", "#pragma mark x \\ \t \n    y\n#define CONT2(a) f(a); \\   \n   g(a)\n",
                                    "#error message \\    \n   continued\n"])
-            if lang == "CPP" and rng.random() < 0.3:
+            tailns = lang == "CPP" and rng.random() < 0.3
+            if tailns:
                 txt += "namespace tailns {\nint tv;\n}\n"
             k = rng.random()
             if k < 0.3:
@@ -104,6 +105,9 @@ def run(ctx):
                         "nl_end_of_file": rng.choice(["ignore", "add", "remove", "force"]), "nl_end_of_file_min": rng.choice([0, 1, 2, 3]),
                         "nl_start_of_file": rng.choice(["ignore", "ignore", "add", "remove", "force"]),
                         "nl_start_of_file_min": rng.choice([0, 1, 2])}
+                if tailns and rng.random() < 0.5:
+                    # the last newline chunk follows a namespace brace: do_blank_lines() does not force it to 1
+                    opts.update({"nl_before_namespace": 2, "nl_end_of_file": rng.choice(["force", "add"]), "nl_end_of_file_min": rng.choice([1, 2])})
                 jobs.append(pipeline.Job("gen%d" % i, sc.cfg(None, opts), p, lang, {"opts": opts, "kind": "gen", "text": txt}))
         pairs = [p for p in unc.test_pairs() if os.path.getsize(p[2]) < 30000]
         rng.shuffle(pairs)
